@@ -659,6 +659,26 @@ def check_symbol_tables(run, cov):
         run.violation("casadi_to_sympy/symbols/shared", f"symbols of two conversions sharing a table: {fs}", {})
     if len(syms) != 2 or {str(v) for v in syms.values()} != {"x", "y"}:
         run.violation("casadi_to_sympy/symbols/table", f"table after two conversions: {syms}", {})
+    # (5) a LONG history on one shared table whose earlier casadi variables are dead by the time later ones are made
+    #     (a table that remembers a variable by something the allocator hands out again confuses v_i with v_0)
+    import gc
+    syms = {}
+    for i in range(120):
+        v = ca.SX.sym(f"v{i}")
+        e = 2 * v + i
+        try:
+            s5 = S.casadi_to_sympy(e, syms)
+        except Exception as ex:     # noqa
+            run.violation("casadi_to_sympy/symbols/history/raises", f"{type(ex).__name__}: {ex}", {"round": i}); break
+        names = {str(q) for q in s5.free_symbols}
+        cov["c2s_table"] += 1
+        if names != {f"v{i}"} or s5.subs({q: 3 for q in s5.free_symbols}) != 6 + i:
+            run.violation("casadi_to_sympy/symbols/history", f"round {i} of conversions sharing one table: casadi {e} became sympy {s5}",
+                          {"round": i, "casadi": str(e), "sympy": str(s5)})
+            break
+        del v, e, s5
+        if i % 7 == 0:
+            gc.collect()
     x2 = ca.SX.sym("x")
     s3 = S.casadi_to_sympy(x * x2, {})
     if len(s3.free_symbols) != 1:
